@@ -7,6 +7,8 @@ Reply format: `<model>\t<spec>`; spec patterns: `*` anything, `a|b` alternatives
   echo <hex>           ECHO / PING commands with lines of any length sent to the real server: the exact replies
   zero <hex>           frames that carry no command (`*0`, `*-1`, blank lines) sent to the real server, then
                        `PING`: handleConn must skip them and still answer `+PONG`
+  pipe <sizes> <a,a;a,a,a;…>   several commands written back to back in pieces of the given sizes
+  parse/echo take an optional last token `<size.size.…>`: the pieces in which the bytes are delivered
   cmd <hex> <hex> …    one command (RESP array of bulk strings) on the current connection
 -/
 import Driver.Lib
@@ -45,6 +47,7 @@ def setCfg (st : DSt) (kv : String) : Option DSt :=
     | "resp.lenParser" => if v == "atoi" then some st else none
     | "resp.negArrayNil" => if v == "true" then some st else none
     | "resp.negBulkNil" => if v == "true" then some st else none
+    | "resp.bulkCopy" => if v == "copy" then some st else none
     | "resp.lineRead" => if v == "unbounded" then some st else none
     | "resp.lineTerm" => if v == "crlf" then some st else none
     | "resp.crlfAfterBulk" => if v == "true" then some st else none
@@ -141,19 +144,57 @@ def echoReply (f : List Arg) : Option String :=
     if upper name = str "ECHO" then some s!"bulk{x.length}/{cksum x}" else none
   | _ => none
 
+def parseOp (st : DSt) (h : String) : String :=
+  match bytesOf? h with
+  | some b =>
+    let r := parseConn st.pc b
+    let good := parseConn PCfg.good b
+    let spec := if wellFormedAs b good.frames then connStr good b.length else "safe*"
+    connStr r b.length ++ "\t" ++ spec
+  | none => "bad-op"
+
+/-- ECHO / PING commands (inline or arrays, any line length) on one connection of the real server -/
+def echoOp (st : DSt) (h : String) : String :=
+  match bytesOf? h with
+  | some b =>
+    let r := parseConn st.pc b
+    let good := parseConn PCfg.good b
+    let cmds := r.frames.filter (fun f => !f.isEmpty)
+    let out := match r.fin with
+      | .panic => "crash"
+      | .oom => "crash"
+      | .err e =>
+        if e == .eof then
+          match cmds.mapM echoReply with
+          | some rs => ",".intercalate rs
+          | none => "n/a"
+        else "n/a"
+    let spec := if out == "n/a" || !(wellFormedAs b good.frames) then "*" else out
+    out ++ "\t" ++ spec
+  | none => "bad-op"
+
 def step (st : DSt) (toks : List String) : DSt × String :=
   match toks with
   | "cfg" :: kvs =>
     match kvs.foldlM setCfg st with
     | some st' => (st', "ok")
     | none => (st, "bad-cfg")
-  | ["parse", h] =>
-    match bytesOf? h with
-    | some b =>
-      let r := parseConn st.pc b
-      let good := parseConn PCfg.good b
-      let spec := if wellFormedAs b good.frames then connStr good b.length else "safe*"
-      (st, connStr r b.length ++ "\t" ++ spec)
+  | ["parse", h] => (st, parseOp st h)
+  -- third token = the pieces in which the reader receives the stream: the parse is a function of
+  -- the bytes alone, so the model ignores it
+  | ["parse", h, _] => (st, parseOp st h)
+  | ["echo", h, _] => (st, echoOp st h)
+  | ["pipe", _, cs] =>
+    -- several commands written back to back (in pieces), one reply each
+    match (cs.splitOn ";").mapM (fun c => (c.splitOn ",").mapM bytesOf?) with
+    | some cmds =>
+      if cmds.any (·.isEmpty) then (st, "bad-op") else
+      let (g, s, outs) := cmds.foldl (fun (acc : St × St × List (String × String)) args =>
+          let g := gwStep st.gc modelNowMs acc.1 args
+          let s := spStep modelNowMs acc.2.1 args
+          (g.1, s.1, acc.2.2 ++ [(replyStr g.2, replyStr s.2)])) (st.gw, st.sp, [])
+      ({ st with gw := g, sp := s },
+        ";".intercalate (outs.map (·.1)) ++ "\t" ++ ";".intercalate (outs.map (·.2)))
     | none => (st, "bad-op")
   | ["conn", h] =>
     match bytesOf? h with
@@ -177,25 +218,7 @@ def step (st : DSt) (toks : List String) : DSt × String :=
         | .err e => if e == .eof && cmds == [[some [80, 73, 78, 71]]] then "pong" else "n/a"
       (st, out ++ "\t" ++ (if out == "n/a" then "*" else "pong"))
     | none => (st, "bad-op")
-  | ["echo", h] =>
-    match bytesOf? h with
-    | some b =>
-      -- ECHO / PING commands (inline or arrays, any line length) on one connection of the real server
-      let r := parseConn st.pc b
-      let good := parseConn PCfg.good b
-      let cmds := r.frames.filter (fun f => !f.isEmpty)
-      let out := match r.fin with
-        | .panic => "crash"
-        | .oom => "crash"
-        | .err e =>
-          if e == .eof then
-            match cmds.mapM echoReply with
-            | some rs => ",".intercalate rs
-            | none => "n/a"
-          else "n/a"
-      let spec := if out == "n/a" || !(wellFormedAs b good.frames) then "*" else out
-      (st, out ++ "\t" ++ spec)
-    | none => (st, "bad-op")
+  | ["echo", h] => (st, echoOp st h)
   | "cmd" :: hs =>
     match hs.mapM bytesOf? with
     | some args =>
